@@ -232,10 +232,19 @@ def rm_f(ctx):
     return ctx.repo.func('_add', 'remove')
 
 
+def r6_selection_survives_missing_dependencies(ctx, res):
+    """a valid specifier selects its lexicons whether or not the providers those lexicons declare are installed: the default
+    expand set that Wordnet.__init__ hands to find_lexicons() contains only installed providers (a specifier list in which
+    nothing matches makes find_lexicons raise, and wn.lexicons() turns that into an empty selection) - analysis of C12-R4."""
+    from .c12 import r4_default_expand
+    r4_default_expand(ctx, res)
+
+
 RULES = [
     ('C08-R1', r1_non_interference, 2),
     ('C08-R2', r2_limit_order, 2),
     ('C08-R3', r3_match_shape, 3),
     ('C08-R4', r4_error_vs_empty, 12),
     ('C08-R5', r5_selection_before_write, 3),
+    ('C08-R6', r6_selection_survives_missing_dependencies, 3),
 ]
